@@ -26,6 +26,19 @@
 #define C05_IN_REGION_OK(hbuf_, hlen_) \
 	((hbuf_) >= c05_in && (hbuf_) <= c05_in + C05_HB && (hlen_) <= (size_t)(c05_in + C05_HB - (hbuf_)))
 
+/* stated call-site preconditions shared by all programs */
+static void
+c05_env_common(T0N_CTXT *c)
+{
+	(void)c;
+#ifdef C05_OP_data_get8
+	/* data-get8: the T0 code walks the constant data block from literal start offsets up to a terminator */
+	if (OP == C05_OP_data_get8) {
+		ASSUME(C05_TOP(0) < sizeof t0_datablock);
+	}
+#endif
+}
+
 /* ================================================================== pkey / skey */
 #if defined(C05_KEY_pkey) || defined(C05_KEY_skey)
 static void
@@ -92,6 +105,10 @@ c05_env(T0N_CTXT *c)
 	if (ND_U8() & 1) { c->append_in = c05_append; } else { c->append_in = 0; }
 	c->append_dn_ctx = 0;
 	c->append_in_ctx = 0;
+	/* stated: the two integers were read into pkey_data under its length limit */
+	if (OP == C05_OP_copy_rsa_pkey) {
+		ASSUME(C05_TOP(1) <= C05_REGION_LEN_pkey_data && C05_TOP(0) <= C05_REGION_LEN_pkey_data - C05_TOP(1));
+	}
 }
 static void
 c05_post(T0N_CTXT *c, unsigned op)
